@@ -725,7 +725,14 @@ var c16Witnesses = []struct{ sdl, query string }{
 	{igCorpus[1], `{ __type(name: "Date") { name specifiedByURL } }`},
 	{igCorpus[1], `{ __schema { types { name } types { kind } } }`},
 	{igCorpus[1], `{ __type(name: "A") { fields(includeDeprecated: true) { name deprecationReason } } }`},
+	// a non-null field whose type is reached again while its own `ofType` is being resolved
+	{c16SelfRefSDL, `{ __type(name: "User") { fields { name type { kind name ofType { kind name fields { name type { kind name ofType { kind name } } args { name type { kind ofType { kind name } } } } } } } } }`},
+	{c16SelfRefSDL, `{ __schema { types { name fields { name type { kind ofType { name fields { name type { kind ofType { name } } } } } } inputFields { name type { kind ofType { name inputFields { name type { kind } } } } } } } }`},
 }
+
+const c16SelfRefSDL = `type User { id: ID! bestFriend: User! friends(of: Filter!): [User!]! name: String }
+input Filter { and: Filter not: Filter! min: Int! }
+type Query { me: User! }`
 
 // c16OtherVars: the same operation text with every provided variable changed (booleans flipped,
 // type names replaced by another type of the schema).
@@ -760,6 +767,40 @@ func c16OtherVars(r *hx.Rand, env *c16Env, cs ioCase) (ioCase, bool) {
 		}
 	}
 	return out, changed
+}
+
+// c16Batch: the standard query four times in ONE batch (the gateway answers the entries of a batch
+// concurrently) — each entry must be answered like the query sent alone: resolving introspection
+// reads the merged schema and must leave it as it is.
+func c16Batch(ctx *Ctx, idx int, env *c16Env) {
+	q := stdQuery()
+	single, _ := env.post(q, nil)
+	body := []interface{}{}
+	for i := 0; i < 4; i++ {
+		body = append(body, map[string]interface{}{"query": q})
+	}
+	b, _ := json.Marshal(body)
+	r := httptest.NewRequest("POST", "/", bytes.NewReader(b))
+	r.Header.Set("Content-Type", "application/json")
+	w := httptest.NewRecorder()
+	env.gw.Handler(w, r)
+	var as []gwAnswer
+	d := json.NewDecoder(bytes.NewReader(w.Body.Bytes()))
+	d.UseNumber()
+	cs := ioCase{Kind: "batch", SDL: env.gs.SDL, Query: q}
+	ctx.Rep.Case(fmt.Sprintf("batch/%d", env.ix), true)
+	ctx.Rep.Count("sequence:standard query four times in one batch")
+	if err := d.Decode(&as); err != nil || len(as) != 4 {
+		ctx.Rep.Fail(hx.Failure{Kind: "property-fails", Detail: fmt.Sprintf("a batch of four standard introspection queries is not answered by an array of four results (%v)", err), Case: cs, Index: idx})
+		return
+	}
+	want := hx.Canon(map[string]interface{}{"data": single.Data, "errors": single.Errors})
+	for i, a := range as {
+		if got := hx.Canon(map[string]interface{}{"data": a.Data, "errors": a.Errors}); got != want {
+			ctx.Rep.Fail(hx.Failure{Kind: "property-fails", Detail: fmt.Sprintf("entry %d of a batch of four standard introspection queries is answered differently from the same query sent alone", i), Case: cs, Index: idx})
+			return
+		}
+	}
 }
 
 func runC16(ctx *Ctx) error {
@@ -841,6 +882,8 @@ func runC16(ctx *Ctx) error {
 			c16TypeVsTypes(ctx, idx, env, genTypeVsTypes(ctx.Rand.Fork(), env.gs.Schema))
 			idx++
 		}
+		c16Batch(ctx, idx, env)
+		idx++
 	}
 	return nil
 }
